@@ -48,6 +48,17 @@ Re-run: `tools/run_all_seeds.sh` (scratch worktree of /repo HEAD, nothing in /re
 * **C29-working-id-by-name** -- needs "no entry of the shuffled list is lost by the move-to-front" (a permutation
   argument over a struct slice with `append`); the clause is true on the unchanged tree but no solver proved it within
   4 minutes, so it is not claimed. `keep_all` (list untouched until the working id is found) is proved.
+* **C05-stale-padding-second-marshal** -- `UtlsPaddingExtension.Update` calls the user-supplied `GetPaddingLen`
+  function value, whose effects a contract cannot bound, so only the `GetPaddingLen == nil` case is specified; the
+  change is in how the functor's answer is stored.
+* **C18-grease-placeholder-compare** -- the helper `keySharesAlreadyGenerated` is specified soundly ("true only if every
+  real share has data") but not completely ("true whenever ..."): the completeness clause needs an invariant of the
+  outer loop inside the nested loop, which the contract language cannot name; the change makes the helper answer
+  "no" too often.
+* **C27-fullsize-record-rejected**, **C27-cbc-minpayload-16** -- changes in the upstream record layer
+  (`readRecordOrCCS`, `halfConn.decrypt`), which is not under contract (decrypt leaves the verifiable subset: a
+  64-bit `&` of two non-constant operands); C27's claim covers the wiring done by MakeConnWithCompleteHandshake, not
+  the record layer itself.
 * **C32-sigalgscert-json-tag** -- the change is a struct tag read by encoding/json through reflection; go/ssa carries
   no semantics for tags and encoding/json is a trusted contract, so this is outside the technique's reach.
 ''')
